@@ -40,6 +40,42 @@ def _nest(node):
     return node
 
 
+_legacy_cls = {}
+
+
+def legacy_state_parser():
+    """A pylatexenc-2 style arguments parser that reports a new parsing state for
+    some invocations only (argument text 'def'), like a \\newcommand-ish macro."""
+    if 'cls' not in _legacy_cls:
+        from pylatexenc.macrospec import MacroStandardArgsParser
+
+        class SimLegacyStateParser(MacroStandardArgsParser):
+            def __init__(self):
+                super(SimLegacyStateParser, self).__init__('{')
+
+            def parse_args(self, w, pos, parsing_state=None):
+                argd, apos, alen = super(SimLegacyStateParser, self).parse_args(
+                    w=w, pos=pos, parsing_state=parsing_state)
+                if parsing_state is None:
+                    parsing_state = w.make_parsing_state()
+                if w.s[apos:apos + alen].strip() == '{def}':
+                    return (argd, apos, alen,
+                            {'new_parsing_state': parsing_state.sub_context(enable_comments=False)})
+                return (argd, apos, alen)
+        _legacy_cls['cls'] = SimLegacyStateParser
+    return _legacy_cls['cls']()
+
+
+def macro_dict_variant(v):
+    """pylatexenc-1 style macro_dict: same names and size, different signatures."""
+    from pylatexenc.latexwalker import MacrosDef
+    sigs = [(False, 1), (False, 2), (True, 1)][v % 3]
+    sigs2 = [(True, 2), (False, 1), (False, 3)][v % 3]
+    return {'kmac': MacrosDef('kmac', sigs[0], sigs[1]),
+            'kmad': MacrosDef('kmad', sigs2[0], sigs2[1]),
+            'textbf': MacrosDef('textbf', False, 1)}
+
+
 def build_k1(shared_instances=False):
     from pylatexenc import macrospec
     from pylatexenc.latexnodes import (
@@ -75,6 +111,7 @@ def build_k1(shared_instances=False):
         macrospec.MacroSpec('lg', args_parser=macrospec.MacroStandardArgsParser('*[{')),
         macrospec.MacroSpec('lv', args_parser=macrospec.VerbatimArgsParser(verbatim_arg_type='verb-macro')),
         macrospec.MacroSpec('ls', args_parser='[{'),
+        macrospec.MacroSpec('lgs', args_parser=legacy_state_parser()),
     ], environments=[
         macrospec.EnvironmentSpec('lverb', args_parser=macrospec.VerbatimArgsParser(
             verbatim_arg_type='verbatim-environment', verbatim_environment_name='lverb')),
@@ -109,6 +146,14 @@ def build_context(recipe):
     if kind == 'K0':
         from pylatexenc.latexwalker import get_default_latex_context_db
         return get_default_latex_context_db()
+    if kind == 'KM':
+        return macro_dict_variant(recipe[1])
+    if kind == 'KG':
+        # the process-global pylatexenc-1 style dictionary of default macros
+        from pylatexenc.latexwalker import default_macro_dict
+        return default_macro_dict
+    if kind in ('KD', 'KT'):
+        return None
     if kind == 'K3':
         from pylatexenc.latex2text import get_default_latex_context_db as l2t_db
         return l2t_db()
@@ -164,7 +209,8 @@ class DocGen(object):
     def __init__(self, rng, recipe):
         self.rng = rng
         self.kind = base_kind(recipe)
-        if self.kind in ('K3', 'KD'):
+        self.legacy1 = self.kind in ('KM', 'KT')
+        if self.kind in ('K3', 'KD', 'KM', 'KT', 'KG'):
             self.kind = 'K0'
         self.extended = []
         r = recipe
@@ -253,6 +299,9 @@ class DocGen(object):
     def piece_k0(self, depth, math):
         rng = self.rng
         d = depth - 1
+        if self.legacy1 and rng.random() < 0.4:
+            return rng.choice(['\\kmac{a}{b}[c]', '\\kmac[o]{a}{b}', '\\kmad{p}{q}{r} ', '\\kmad[x]{y}',
+                               '\\kmac x y', '\\textbf{\\kmac{u}{v}}'])
         if self.extended and rng.random() < 0.2:
             n, spec = rng.choice(self.extended)
             return self.macro_call(n, spec, depth)
@@ -347,6 +396,8 @@ class DocGen(object):
                 cl = '}' if o == '{' else o
                 return '\\lv' + o + rng.choice(['a b', '\\x', '$']) + cl
             if c == 2:
+                if rng.random() < 0.6:
+                    return rng.choice(['\\lgs{def} % c\nx', '\\lgs{x} % d\ny', '\\lgs{x}', 'a % b\n\\lgs{def}'])
                 return '\\ls' + rng.choice(['', '[o]']) + '{' + self.text() + '}'
             if c == 3:
                 return '\\begin{lverb}' + rng.choice(['a{b', 'x\n']) + '\\end{lverb}'
